@@ -52,14 +52,22 @@ Definition spec_recv_ok (rem : bytes) (size : nat) (d : bytes) : bool :=
 Record sstate := mkS {
   s_rem : bytes;       (* remaining stream *)
   s_max : limit;       (* instance default maxsize *)
-  s_tmo : nat;         (* time-outs the receiving network may still produce *)
+  s_intr : list exn;   (* interruptions (time-outs, socket errors) the receiving network will still
+                          produce, in order *)
   s_acc : bytes;       (* everything accepted by send/buffer so far *)
   s_wl : nat;          (* bytes on the wire so far *)
-  s_stmo : nat         (* time-outs the sending network may still produce *)
+  s_sintr : list exn   (* interruptions the sending network will still produce *)
 }.
 
-Definition spec_init (stream : bytes) (maxsize : nat) (tmo stmo : nat) : sstate :=
-  mkS stream (Some maxsize) tmo [] 0 stmo.
+Definition spec_init (stream : bytes) (maxsize : nat) (ri si : list exn) : sstate :=
+  mkS stream (Some maxsize) ri [] 0 si.
+
+(* an interruption outcome must be the next interruption of the network *)
+Definition next_intr (out : outcome) (pending : list exn) : option (list exn) :=
+  match out, pending with
+  | OExn e, e' :: r => if exn_eqb e e' then Some r else None
+  | _, _ => None
+  end.
 
 (* One observed call.  [stream] is the whole byte stream the peer sends,
    [wire] everything the peer has received by the end of the history.
@@ -70,16 +78,17 @@ Definition spec_step (stream wire : bytes) (s : sstate) (o : op) (ob : step_obs)
   if is_recv_op o then
     (* conservation: buffered ++ undelivered is the remaining stream *)
     let conserved rem' := bytes_eqb (o_buf ob ++ skipn (o_cnt ob) stream) rem' in
-    if is_timeout out then
-      (* a time-out may only come from the network and loses nothing *)
-      match s_tmo s with
-      | 0 => None
-      | S t => if conserved (s_rem s)
-               then Some (mkS (s_rem s) (s_max s) t (s_acc s) (s_wl s) (s_stmo s)) else None
+    if is_interrupt out then
+      (* a Timeout / socket error may only come from the network, in the order the
+         network produces them, and loses nothing *)
+      match next_intr out (s_intr s) with
+      | None => None
+      | Some t => if conserved (s_rem s)
+                  then Some (mkS (s_rem s) (s_max s) t (s_acc s) (s_wl s) (s_sintr s)) else None
       end
     else
       let next rem' := if conserved rem'
-                       then Some (mkS rem' (s_max s) (s_tmo s) (s_acc s) (s_wl s) (s_stmo s)) else None in
+                       then Some (mkS rem' (s_max s) (s_intr s) (s_acc s) (s_wl s) (s_sintr s)) else None in
       match o with
       | Recv size =>
           match out with
@@ -95,22 +104,25 @@ Definition spec_step (stream wire : bytes) (s : sstate) (o : op) (ob : step_obs)
   else
     match o with
     | SetMaxsize m =>
-        if outcome_eqb out ONone then Some (mkS (s_rem s) m (s_tmo s) (s_acc s) (s_wl s) (s_stmo s)) else None
+        if outcome_eqb out ONone then Some (mkS (s_rem s) m (s_intr s) (s_acc s) (s_wl s) (s_sintr s)) else None
     | Send _ | Buffer _ | Flush =>
         let acc' := match o with Send d | Buffer d => s_acc s ++ d | _ => s_acc s end in
         (* wire ++ send buffer = accepted, in order; the wire only grows *)
         let conserved := bytes_eqb (firstn (o_cnt ob) wire ++ o_buf ob) acc'
                          && Nat.leb (s_wl s) (o_cnt ob) && Nat.leb (o_cnt ob) (length wire) in
-        let next stmo := if conserved
-                         then Some (mkS (s_rem s) (s_max s) (s_tmo s) acc' (o_cnt ob) stmo) else None in
+        let next si := if conserved
+                       then Some (mkS (s_rem s) (s_max s) (s_intr s) acc' (o_cnt ob) si) else None in
         match o, out with
-        | Buffer _, ONone => if Nat.eqb (o_cnt ob) (s_wl s) then next (s_stmo s) else None
+        | Buffer _, ONone => if Nat.eqb (o_cnt ob) (s_wl s) then next (s_sintr s) else None
         | Buffer _, _ => None
-        | _, OExn Timeout => match s_stmo s with 0 => None | S t => next t end
+        (* interrupted (after 0 or more bytes went out): the unsent rest stays buffered *)
+        | _, OExn _ => if is_interrupt out
+                       then match next_intr out (s_sintr s) with Some t => next t | None => None end
+                       else None
         (* success: everything accepted so far is on the wire; send returns the
            number of bytes this call put there *)
-        | Send _, ONat n => if is_nil (o_buf ob) && Nat.eqb (s_wl s + n) (o_cnt ob) then next (s_stmo s) else None
-        | Flush, ONone => if is_nil (o_buf ob) then next (s_stmo s) else None
+        | Send _, ONat n => if is_nil (o_buf ob) && Nat.eqb (s_wl s + n) (o_cnt ob) then next (s_sintr s) else None
+        | Flush, ONone => if is_nil (o_buf ob) then next (s_sintr s) else None
         | _, _ => None
         end
     | _ => None
@@ -131,9 +143,9 @@ Definition spec_final (stream : bytes) (s : sstate) (f : final_obs) : bool :=
   bytes_eqb (f_rbuf f ++ skipn (f_consumed f) stream) (s_rem s) &&
   bytes_eqb (f_wire f ++ f_sbuf f) (s_acc s) && Nat.eqb (length (f_wire f)) (s_wl s).
 
-Definition spec_holds (stream : bytes) (maxsize : nat) (tmo stmo : nat)
+Definition spec_holds (stream : bytes) (maxsize : nat) (ri si : list exn)
            (steps : list (op * step_obs)) (f : final_obs) : bool :=
-  match spec_run stream (f_wire f) (spec_init stream maxsize tmo stmo) steps with
+  match spec_run stream (f_wire f) (spec_init stream maxsize ri si) steps with
   | Some s => spec_final stream s f
   | None => false
   end.
@@ -147,8 +159,8 @@ Definition frame (p : bytes) : bytes := dec (length p) ++ COLON :: p ++ [COMMA].
 
 (* Reference for a reader: the payloads, in order.  [ps] = payloads whose
    frames make up the front of the stream, [rem] = the remaining stream; each
-   non-time-out outcome of read_ns is the next payload and consumes exactly its
-   frame; a time-out consumes nothing (buffered ++ undelivered stays the
+   uninterrupted outcome of read_ns is the next payload and consumes exactly its
+   frame; an interruption (Timeout or socket error) consumes nothing (buffered ++ undelivered stays the
    remaining stream, so the call can be repeated); once the payloads are
    exhausted and nothing else follows, the connection is reported closed.  A
    payload longer than the reader's maxsize is refused with
@@ -156,7 +168,7 @@ Definition frame (p : bytes) : bytes := dec (length p) ++ COLON :: p ++ [COMMA].
    more digits than maxsize), after which the reference says nothing more (the
    documentation: close the connection); it is also silent about what follows
    the last frame when that is not the end of the stream. *)
-Fixpoint spec_reads (stream : bytes) (maxsize : nat) (rem : bytes) (ps : list bytes) (tmo : nat)
+Fixpoint spec_reads (stream : bytes) (maxsize : nat) (rem : bytes) (ps : list bytes) (tmo : list exn)
          (clean_end : bool) (steps : list (nsop * step_obs)) : bool :=
   match steps with
   | [] => true
@@ -166,10 +178,10 @@ Fixpoint spec_reads (stream : bytes) (maxsize : nat) (rem : bytes) (ps : list by
   | (ReadNs m, ob) :: r =>
       let out := o_out ob in
       let conserved rem' := bytes_eqb (o_buf ob ++ skipn (o_cnt ob) stream) rem' in
-      if is_timeout out then
-        match tmo with
-        | 0 => false
-        | S t => conserved rem && spec_reads stream maxsize rem ps t clean_end r
+      if is_interrupt out then
+        match next_intr out tmo with
+        | None => false
+        | Some t => conserved rem && spec_reads stream maxsize rem ps t clean_end r
         end
       else
         let mx := match m with Some n => n | None => maxsize end in
@@ -216,7 +228,7 @@ Definition strip (steps : list (nsop * step_obs)) : list (nsop * outcome) :=
 (* a writer history and a reader history over the stream the writer produced
    (followed by [junk], which the writer did not produce) *)
 Definition spec_ns_holds (wmax : nat) (wsteps : list (nsop * step_obs)) (wwire : bytes)
-           (rmax : nat) (stream junk : bytes) (tmo : nat) (rsteps : list (nsop * step_obs)) : bool :=
+           (rmax : nat) (stream junk : bytes) (tmo : list exn) (rsteps : list (nsop * step_obs)) : bool :=
   match spec_writes wmax (strip wsteps) with
   | Some w => bytes_eqb w wwire
   | None => false
